@@ -1,6 +1,6 @@
 (* C13 — Accounting: counters conserve requests; in-flight gauges return to zero.
-   Statements only; proofs in Proofs/LBProofs.v. *)
-From Helios Require Import Base.Prelude Model.Strategy Model.LB Proofs.LBProofs.
+   Statements only; proofs in Proofs/LBProofs.v and Proofs/AccountingProofs.v. *)
+From Helios Require Import Base.Prelude Model.Strategy Model.LB Proofs.LBProofs Proofs.AccountingProofs.
 
 (* Conservation law, for every configuration and every history of the composite balancer model
    (requests of any clients overlapping arbitrarily, any outcomes incl. aborted responses, rate-limited,
@@ -27,6 +27,54 @@ Theorem C13_total :
 Proof. intros. rewrite lb_run_total by apply lb_init_conserved. reflexivity. Qed.
 Print Assumptions C13_total.
 
+(* Each backend's active-connection gauge equals its number of in-flight requests: in every reachable state, for every
+   *Backend object - pooled or already removed with requests still draining - ActiveConnections is the number of entries of the
+   in-flight table that were dispatched to that object ... *)
+Theorem C13_object_gauge :
+  forall cfg k t0 ops, let s := fst (lb_run cfg (lb_init cfg k t0) ops) in
+  forall b, In b (pool s ++ dead s) -> bactive b = cnt (bid b) (infl s).
+Proof. exact object_gauge. Qed.
+Print Assumptions C13_object_gauge.
+
+(* ... returning to zero when idle, after every kind of failed, rejected or aborted request *)
+Theorem C13_object_gauge_zero_when_idle :
+  forall cfg k t0 ops, let s := fst (lb_run cfg (lb_init cfg k t0) ops) in
+  forall b, In b (pool s ++ dead s) -> (forall e, In e (infl s) -> eid e <> bid b) -> bactive b = 0.
+Proof. exact object_gauge_idle. Qed.
+Print Assumptions C13_object_gauge_zero_when_idle.
+
+(* Per-backend totals equal the number of requests each backend was actually sent: the collector's total of a name plus the
+   requests still in flight on that name is the number of dispatch decisions of the history whose object carries that name *)
+Theorem C13_backend_totals :
+  forall cfg k t0 ops n, let s := fst (lb_run cfg (lb_init cfg k t0) ops) in
+  m_total (bm_get s n) + cntn n (infl s) = sent cfg n (lb_init cfg k t0) ops.
+Proof. exact backend_totals. Qed.
+Print Assumptions C13_backend_totals.
+
+(* and each of them is counted as exactly one of successful / failed *)
+Theorem C13_backend_split :
+  forall cfg k t0 ops n, let s := fst (lb_run cfg (lb_init cfg k t0) ops) in
+  m_total (bm_get s n) = m_succ (bm_get s n) + m_fail (bm_get s n).
+Proof. exact backend_split. Qed.
+Print Assumptions C13_backend_split.
+
+(* The PUBLISHED gauge (the collector's mirror, keyed by name).  Full statement: in every reachable state it equals the number
+   of requests in flight on that name.  That is FALSE of the code (known finding gauge-stale-after-readd-while-draining):
+   the witness below is the history the lbseq corpus replays on the implementation. *)
+Theorem C13_published_gauge_refuted :
+  let s := fst (lb_run refute_cfg (lb_init refute_cfg RR 0) refute_ops) in
+  m_gauge (bm_get s 4) = 0 /\ cntn 4 (infl s) = 1.
+Proof. exact mirror_gauge_refuted. Qed.
+Print Assumptions C13_published_gauge_refuted.
+
+(* What does hold (partial): on every history in which no name is added again while a removed backend of that name still has
+   requests in flight, the published gauge of every name equals the requests in flight on it, in every reachable state. *)
+Theorem C13_published_gauge_partial :
+  forall cfg k t0 ops n, clean_run cfg (lb_init cfg k t0) ops ->
+  let s := fst (lb_run cfg (lb_init cfg k t0) ops) in m_gauge (bm_get s n) = cntn n (infl s).
+Proof. exact mirror_gauge_clean. Qed.
+Print Assumptions C13_published_gauge_partial.
+
 Example C13_nonvacuous :
   let cfg := {| c_passive := true; c_pthr := 1; c_ptimeout := 30; c_active := false; c_lim := false;
                 c_lcfg := {| Helios.Model.Limiter.lmax := 1; Helios.Model.Limiter.lrate := 1 |}; c_brk := false;
@@ -37,3 +85,12 @@ Example C13_nonvacuous :
                   [LAdd 1 1 true; LBegin 1 q; LEnd 1 (OStatus 500); LBegin 2 q; LBegin 3 q; LAdv 31; LBegin 4 q; LEnd 4 OAbort]) in
   (total s, succ s, failed s, rlim s, infl s) = (4, 0, 4, 0, []).
 Proof. vm_compute. reflexivity. Qed.
+
+(* a clean history that removes a backend with a request in flight, lets it drain, adds the name again and dispatches to the
+   new object: the hypotheses of the partial theorem are satisfiable on a history that exercises remove / re-add *)
+Example C13_clean_nonvacuous :
+  let ops := [LAdd 4 1 true; LBegin 1 refute_q; LRemove 4; LEnd 1 (OStatus 200); LAdd 4 1 true; LBegin 2 refute_q] in
+  clean_run refute_cfg (lb_init refute_cfg RR 0) ops
+  /\ let s := fst (lb_run refute_cfg (lb_init refute_cfg RR 0) ops) in
+     (m_gauge (bm_get s 4), cntn 4 (infl s), m_total (bm_get s 4), sent refute_cfg 4 (lb_init refute_cfg RR 0) ops) = (1, 1, 1, 2).
+Proof. split; [cbn; repeat split; intros; reflexivity|vm_compute; reflexivity]. Qed.
